@@ -39,6 +39,26 @@ func (s *Topics) Open() error {
 }
 
 func (s *Topics) Close() error {
+	// A handler that publishes to another topic collects through this very object while its own topic drains:
+	// the topics stay in the table, with their handlers, until a round over all of them has delivered nothing anymore.
+	// An event moves at least one topic further per round: more rounds than there are topics mean a cycle.
+	for round := 0; ; round++ {
+		s.mu.RLock()
+		topics := make([]*Topic, 0, len(s.topics))
+		for _, t := range s.topics {
+			topics = append(topics, t)
+		}
+		s.mu.RUnlock()
+		delivered := false
+		for _, t := range topics {
+			if t.flush() {
+				delivered = true
+			}
+		}
+		if !delivered || round > len(topics) {
+			break
+		}
+	}
 	s.mu.Lock()
 	topics := make([]*Topic, 0, len(s.topics))
 	for topic, t := range s.topics {
@@ -46,8 +66,7 @@ func (s *Topics) Close() error {
 		delete(s.topics, topic)
 	}
 	s.mu.Unlock()
-	// Closing a topic delivers the events still queued for its handlers, which must not hold the lock:
-	// a handler that publishes to another topic collects through this very object.
+	// Closing a topic delivers the events still queued for its handlers, which must not hold the lock.
 	for _, t := range topics {
 		t.close()
 	}
@@ -340,6 +359,22 @@ func (t *Topic) EventState(event string) (EventState, bool) {
 	return EventState{}, false
 }
 
+// flush waits until the handlers of the topic have handled the events queued for them,
+// and reports whether any event was handled meanwhile.
+func (t *Topic) flush() bool {
+	t.mu.RLock()
+	handlers := make([]*bufHandler, len(t.handlers))
+	copy(handlers, t.handlers)
+	t.mu.RUnlock()
+	delivered := false
+	for _, h := range handlers {
+		if h.flush() {
+			delivered = true
+		}
+	}
+	return delivered
+}
+
 func (t *Topic) close() {
 	t.mu.Lock()
 	handlers := t.handlers
@@ -435,6 +470,12 @@ type bufHandler struct {
 	events   chan Event
 	aborting chan struct{}
 	wg       sync.WaitGroup
+
+	// The number of events queued or being handled, and the number handled since the last flush.
+	mu      sync.Mutex
+	idle    *sync.Cond
+	queued  int
+	handled int
 }
 
 func newHandler(h Handler, bufferSize int) *bufHandler {
@@ -446,6 +487,7 @@ func newHandler(h Handler, bufferSize int) *bufHandler {
 		events:   make(chan Event, bufferSize),
 		aborting: make(chan struct{}),
 	}
+	hdlr.idle = sync.NewCond(&hdlr.mu)
 	hdlr.wg.Add(1)
 	go func() {
 		defer hdlr.wg.Done()
@@ -477,12 +519,41 @@ func (h *bufHandler) Abort() {
 }
 
 func (h *bufHandler) Handle(event Event) error {
+	h.mu.Lock()
+	h.queued++
+	h.mu.Unlock()
 	select {
 	case h.events <- event:
 		return nil
 	default:
+		h.done(false)
 		return fmt.Errorf("failed to deliver event %q to handler", event.State.ID)
 	}
+}
+
+// done records that an event has left the handler.
+func (h *bufHandler) done(handled bool) {
+	h.mu.Lock()
+	h.queued--
+	if handled {
+		h.handled++
+	}
+	if h.queued == 0 {
+		h.idle.Broadcast()
+	}
+	h.mu.Unlock()
+}
+
+// flush waits until no event is queued or being handled, and reports whether any was handled since the last flush.
+func (h *bufHandler) flush() bool {
+	h.mu.Lock()
+	defer h.mu.Unlock()
+	for h.queued > 0 {
+		h.idle.Wait()
+	}
+	handled := h.handled > 0
+	h.handled = 0
+	return handled
 }
 
 func (h *bufHandler) run() {
@@ -493,7 +564,13 @@ func (h *bufHandler) run() {
 				return
 			}
 			h.h.Handle(event)
+			h.done(true)
 		case <-h.aborting:
+			// Nobody waits for what is left in the queue.
+			h.mu.Lock()
+			h.queued = 0
+			h.idle.Broadcast()
+			h.mu.Unlock()
 			return
 		}
 	}
